@@ -1504,9 +1504,6 @@ func (h *c19harness) runCase(s *c19session, c c19case, caseNo int) {
 				rep.Count("keyed_served_"+s.name+"_"+form, 1)
 			}
 		}
-		if d := after.calls - before.calls; d < 0 {
-			panic("counter went backwards")
-		}
 	}
 
 	// ---- (4) connection state and "the live subscription still delivers"
